@@ -48,6 +48,42 @@ class Explorer:
         self.k = 0
         self.only = None
         self.after = None          # optional probe run in the child after A has finished (later single-threaded calls)
+        self.counting = None
+        self.occ_cap = None        # (first n, last m) dynamic occurrences of every site are explored; None = all
+        self.occ_seen = {}
+        self.occ_total = {}
+        self.skipped = 0
+
+    def count_sites(self, call_a):
+        """dynamic occurrence count of every line site of A, measured in a forked child so that this process keeps its (cold) state"""
+        r, w = os.pipe()
+        pid = os.fork()
+        if pid == 0:
+            try:
+                os.close(r)
+                self.counting = {}
+                mon.use_tool_id(TOOL, 'verif-sched')
+                mon.register_callback(TOOL, self.event, self._cb)
+                mon.set_events(TOOL, self.event)
+                call_value(call_a)
+                mon.set_events(TOOL, 0)
+                data = pickle.dumps(self.counting)
+                view = memoryview(data)
+                while view:
+                    n = os.write(w, view[:1 << 16])
+                    view = view[n:]
+            finally:
+                os._exit(0)
+        os.close(w)
+        buf = []
+        while True:
+            ch = os.read(r, 1 << 16)
+            if not ch:
+                break
+            buf.append(ch)
+        os.close(r)
+        os.waitpid(pid, 0)
+        return pickle.loads(b''.join(buf))
 
     # ---- monitoring callback -------------------------------------------------------------------------------
     def _cb(self, code, where):
@@ -57,8 +93,22 @@ class Explorer:
             return None
         self.k += 1
         k = self.k
-        if self.only is not None and k not in self.only:
+        if self.counting is not None:
+            self.counting[(code.co_filename, code.co_name, where)] = self.counting.get((code.co_filename, code.co_name, where), 0) + 1
             return None
+        if self.occ_cap is not None:
+            key = (code.co_filename, code.co_name, where)
+            n = self.occ_seen[key] = self.occ_seen.get(key, 0) + 1
+            tot = self.occ_total.get(key, n)
+            if not (n <= self.occ_cap[0] or n > tot - self.occ_cap[1]):
+                self.skipped += 1
+                return None
+        if self.only is not None:
+            if isinstance(self.only, tuple):
+                if k % self.only[0] != self.only[1]:      # this process explores one residue class of the preemption points
+                    return None
+            elif k not in self.only:
+                return None
         site = (code.co_filename[len(self.prefix):], code.co_name, where)
         r, w = os.pipe()
         pid = os.fork()
@@ -116,7 +166,7 @@ class Explorer:
         self.results = []
         self.pending = []
         self.k = 0
-        self.only = set(only) if only is not None else None
+        self.only = only if isinstance(only, tuple) or only is None else set(only)
         mon.use_tool_id(TOOL, 'verif-sched')
         mon.register_callback(TOOL, self.event, self._cb)
         mon.set_events(TOOL, self.event)
